@@ -165,7 +165,7 @@ class MaShim:
 
     def _domain(self, x, bad, fn):
         """masked unary function with a domain: entries where bad(x) holds become masked."""
-        x = _np.ma.asarray(x)
+        x = _np.ma.asanyarray(x)
         data = x.data
         out = _np.empty(data.shape, dtype=object)
         m = _np.ma.getmaskarray(x).copy()
